@@ -14,6 +14,10 @@ func init() {
 			if err := tvRun(ctx, gen.Lookalikes(ctx.TierN()), "lookalike"); err != nil {
 				return err
 			}
+			// user packages merely named like the packages goose treats specially
+			if err := tvRun(ctx, gen.MultiPkgLookalikes(), "lookalike"); err != nil {
+				return err
+			}
 			// random subset programs with one out-of-subset construct injected at a random position
 			if sd := envOr("VERIF_RANDOM_SEED", ""); sd != "" {
 				// exploration aid (not used by the registered commands): another seed of the random corpora
